@@ -17,7 +17,37 @@ const M: u32 = MAX_CHAR;
 pub const NB: usize = 64;
 
 /// the compressed line with n positions (n >= 5): 0,1,..,k-1, [k .. M-(n-k-1)], ..., M-1, M
+thread_local! {
+    /// a line put in place of the compressed line for the duration of one call (landmark windows of C11)
+    static LINE_OVERRIDE: std::cell::RefCell<Option<Vec<(u32, u32)>>> = const { std::cell::RefCell::new(None) };
+}
+pub fn with_line<T>(line: Vec<(u32, u32)>, f: impl FnOnce() -> T) -> T {
+    LINE_OVERRIDE.with(|l| *l.borrow_mut() = Some(line));
+    let r = f();
+    LINE_OVERRIDE.with(|l| *l.borrow_mut() = None);
+    r
+}
+/// window w of the landmark line: seven consecutive landmark positions, everything below and everything above
+/// them as one fat position each (9 positions; fewer at the two ends)
+pub fn landmark_window(w: usize) -> Vec<(u32, u32)> {
+    let lm = landmark_units();
+    let w = w.min(lm.len() - 7);
+    let mut v = vec![];
+    if w > 0 {
+        v.push((0, lm[w].0 - 1));
+    }
+    v.extend(lm[w..w + 7].iter().copied());
+    if w + 7 < lm.len() {
+        v.push((lm[w + 7].0, M));
+    }
+    v
+}
 pub fn units(n: usize) -> Vec<(u32, u32)> {
+    if let Some(l) = LINE_OVERRIDE.with(|l| l.borrow().clone()) {
+        if l.len() == n {
+            return l;
+        }
+    }
     if n == landmark_units().len() {
         return landmark_units();
     }
@@ -298,6 +328,21 @@ fn c11_partition(n: usize, p: &Part, rep: &mut Report) -> Vec<String> {
         let cp = build_push(&us, p);
         basic(&cp, "built by push", &mut msgs);
         queries(&cp, "built by push", &mut msgs);
+        // copies: clone(), and clone_from() into partitions that held something else (full cover / empty / one interval)
+        {
+            let c1 = cp.clone();
+            basic(&c1, "clone()", &mut msgs);
+            let mut full = CharPartition::from_set(&CharSet::all_chars());
+            full.clone_from(&cp);
+            basic(&full, "clone_from() into a partition that covered the alphabet", &mut msgs);
+            queries(&full, "clone_from() into a partition that covered the alphabet", &mut msgs);
+            let mut empty = CharPartition::new();
+            empty.clone_from(&cp);
+            basic(&empty, "clone_from() into an empty partition", &mut msgs);
+            let mut one = CharPartition::from_set(&CharSet::range(0, 1));
+            one.clone_from(&cp);
+            basic(&one, "clone_from() into the partition {[0,1]}", &mut msgs);
+        }
         if p.len() == 1 {
             let q = CharPartition::from_set(&CharSet::range(ivs[0].0, ivs[0].1));
             basic(&q, "built by from_set", &mut msgs);
@@ -518,6 +563,32 @@ fn c11_run(ctx: &Ctx, batch: usize, nb: usize, rep: &mut Report) {
             rep.sample(|| sj);
         }
     }
+    // landmark windows: all partitions over seven consecutive landmark positions (encoding borders, the surrogate
+    // block, plane borders) with the rest of the alphabet as fat positions
+    {
+        let nw = landmark_units().len() - 6;
+        let mut k = 0usize;
+        for w in 0..nw {
+            let line = landmark_window(w);
+            let ln = line.len();
+            let wparts = enum_parts(ln);
+            for p in wparts.iter() {
+                k += 1;
+                if k % nb != batch {
+                    continue;
+                }
+                if k % 512 == batch {
+                    beat();
+                }
+                rep.inc("evaluations");
+                rep.inc("landmark_window_partitions");
+                let msgs = with_line(line.clone(), || c11_partition(ln, p, rep));
+                if !msgs.is_empty() {
+                    rep.violation("C11", "c11", json!({"kind": "partition", "line": ln, "window": w, "part": p}), format!("partition {:?}: {}", raw(&line, p), msgs[..msgs.len().min(3)].join(" | ")));
+                }
+            }
+        }
+    }
     // long partitions (binary searches and any size-dependent fast path): L intervals laid out by a gap pattern
     for (k, (len, pat)) in long_partitions(ctx.tier).into_iter().enumerate() {
         if k % nb != batch {
@@ -574,7 +645,14 @@ fn c11_replay(_ctx: &Ctx, c: &Value, rep: &mut Report) {
         }
         "partition" => {
             let p = parse_part(&c["part"]);
-            let msgs = c11_partition(n, &p, rep);
+            let msgs = match c["window"].as_u64() {
+                Some(w) => {
+                    let line = landmark_window(w as usize);
+                    let ln = line.len();
+                    with_line(line, || c11_partition(ln, &p, rep))
+                }
+                None => c11_partition(n, &p, rep),
+            };
             if !msgs.is_empty() {
                 rep.violation("C11", "c11", c.clone(), msgs.join(" | "));
             }
@@ -592,7 +670,7 @@ fn c11_meta(ctx: &Ctx) -> Meta {
     let n = c11_line(ctx.tier);
     Meta {
         level: "exploration",
-        rule: format!("all {} sets of pairwise disjoint intervals over a compressed line of {} positions (0,1,..; one fat position; ..,MAX-1,MAX) are built by push (and by from_set / try_from_list / try_from_iter in every input order when they have <= 4 intervals); every query character (position end points and interior points of the fat position) and every query set [a,b] over them is compared with set arithmetic over positions; all lists of <= 3 arbitrary intervals for the failure side of try_from_iter; long partitions (10 to 100, thorough 1000, intervals in 22-64 adjacency patterns) queried on every character up to their last interval and on sets around every interval; run in the release and in the dev profile; non-trivial = partitions with >= 2 intervals", enum_parts(n).len(), n),
+        rule: format!("all {} sets of pairwise disjoint intervals over a compressed line of {} positions (0,1,..; one fat position; ..,MAX-1,MAX) are built by push (and by from_set / try_from_list / try_from_iter in every input order when they have <= 4 intervals); every query character (position end points and interior points of the fat position) and every query set [a,b] over them is compared with set arithmetic over positions; all lists of <= 3 arbitrary intervals for the failure side of try_from_iter; the same for all partitions over every window of seven consecutive landmark positions (0x7F/0x80 ... 0xD7FF/0xD800, 0xDFFF/0xE000 ... 0x1FFFF/0x20000); clone() and clone_from() over a partition with another witness as further construction routes; long partitions (10 to 100, thorough 1000, intervals in 22-64 adjacency patterns) queried on every character up to their last interval and on sets around every interval; run in the release and in the dev profile; non-trivial = partitions with >= 2 intervals", enum_parts(n).len(), n),
         assumptions: vec!["the code compares end points with <, <=, == and +-1 only, so its behaviour depends on the order/adjacency type of the end points, all of which the compressed line realises for up to 5 non-adjacent intervals".into()],
         exhaustive: true,
         space: format!("compressed line {:?}", units(n)),
@@ -1139,6 +1217,48 @@ fn c20_single(n: usize, a: (usize, usize)) -> Option<String> {
     }
 }
 
+
+/// per-interval facts on an arbitrary interval [lo, hi] (no line): used for the sweep over every character
+fn c20_raw(lo: u32, hi: u32) -> Option<String> {
+    publish_case(|| json!({"kind": "raw", "lo": lo, "hi": hi}));
+    let r = guarded(|| {
+        let ca = CharSet::range(lo, hi);
+        if ca.size() as u64 != (hi - lo) as u64 + 1 || ca.is_singleton() != (lo == hi) || ca.is_alphabet() != (lo == 0 && hi == M) {
+            return Some(format!("size / is_singleton / is_alphabet of [{},{}] = {} / {} / {}", lo, hi, ca.size(), ca.is_singleton(), ca.is_alphabet()));
+        }
+        let pk = ca.pick();
+        if pk < lo || pk > hi {
+            return Some(format!("pick([{:#x},{:#x}]) = {:#x} is not a member", lo, hi, pk));
+        }
+        for (x, inside) in [(lo, true), (hi, true), (lo + (hi - lo) / 2, true)] {
+            if ca.contains(x) != inside {
+                return Some(format!("[{:#x},{:#x}].contains({:#x}) = {}", lo, hi, x, !inside));
+            }
+        }
+        if lo > 0 && (ca.contains(lo - 1) || !ca.is_after(lo - 1) || ca.is_before(lo - 1)) {
+            return Some(format!("[{:#x},{:#x}] and the character just below it: contains/is_after/is_before wrong", lo, hi));
+        }
+        if hi < M && (ca.contains(hi + 1) || !ca.is_before(hi + 1) || ca.is_after(hi + 1)) {
+            return Some(format!("[{:#x},{:#x}] and the character just above it: contains/is_before/is_after wrong", lo, hi));
+        }
+        if lo == hi && CharSet::singleton(lo) != ca {
+            return Some(format!("singleton({:#x}) != range({:#x},{:#x})", lo, lo, lo));
+        }
+        // a partition made of this one interval: its pick is the pick of class 0
+        let cp = CharPartition::from_set(&ca);
+        let pk = cp.pick(0);
+        let pc = cp.pick_in_class(ClassId::Interval(0));
+        if pk < lo || pk > hi || pc < lo || pc > hi {
+            return Some(format!("partition {{[{:#x},{:#x}]}}: pick(0) = {:#x}, pick_in_class(Interval(0)) = {:#x}: not in the interval", lo, hi, pk, pc));
+        }
+        None
+    });
+    match r {
+        Ok(m) => m,
+        Err(e) => Some(format!("CharSet [{:#x},{:#x}]: {}", lo, hi, e)),
+    }
+}
+
 fn c20_pair(n: usize, a: (usize, usize), b: (usize, usize)) -> Option<String> {
     publish_case(|| json!({"kind": "pair", "line": n, "a": [a.0, a.1], "b": [b.0, b.1]}));
     let us = units(n);
@@ -1231,6 +1351,34 @@ fn c20_run(ctx: &Ctx, batch: usize, nb: usize, rep: &mut Report) {
             }
         }
     }
+    // every character as a singleton, as the lower end of [x, x+1], [x, x+255] and [x, MAX], and as the upper end of
+    // [0, x] and of the interval that starts at its landmark block: no value is special to the statement
+    {
+        let marks: Vec<u32> = landmark_units().iter().map(|u| u.0).collect();
+        for x in 0..=M {
+            if x as usize % nb != batch {
+                continue;
+            }
+            if x % 8192 == batch as u32 {
+                beat();
+            }
+            let block_start = *marks.iter().rev().find(|&&m| m <= x).unwrap_or(&0);
+            let mut cases = vec![(x, x), (0, x), (x, M), (block_start, x)];
+            if x < M {
+                cases.push((x, x + 1));
+            }
+            if x + 255 <= M {
+                cases.push((x, x + 255));
+            }
+            for (lo, hi) in cases {
+                rep.inc("evaluations");
+                rep.inc("raw_intervals");
+                if let Some(m) = c20_raw(lo, hi) {
+                    rep.violation("C20", "c20", json!({"kind": "raw", "lo": lo, "hi": hi}), m);
+                }
+            }
+        }
+    }
     let n = c20_line(ctx.tier);
     let ivs: Vec<(usize, usize)> = (0..n).flat_map(|i| (i..n).map(move |j| (i, j))).collect();
     let mut k = 0usize;
@@ -1281,6 +1429,14 @@ fn c20_replay(_ctx: &Ctx, c: &Value, rep: &mut Report) {
     let m = match c["kind"].as_str().unwrap_or("") {
         "single" => c20_single(n, pr(&c["a"])),
         "pair" => c20_pair(n, pr(&c["a"]), pr(&c["b"])),
+        "raw" => {
+            let (lo, hi) = (c["lo"].as_u64().unwrap_or(0) as u32, c["hi"].as_u64().unwrap_or(0) as u32);
+            if lo <= hi && hi <= M {
+                c20_raw(lo, hi)
+            } else {
+                None
+            }
+        }
         _ => c20_triple(n, &parse_part(&c["list"])),
     };
     if let Some(m) = m {
@@ -1296,7 +1452,7 @@ fn c20_meta(ctx: &Ctx) -> Meta {
         rule: format!("all {} intervals over a compressed line of {} positions: every (interval, character), every ordered pair (inter, union, covers, partial_cmp, ==) and every ordered triple (inter_list; plus the empty and one-element lists) against set arithmetic over positions; run in the release profile (wrapping arithmetic) and the dev profile (overflow traps); non-trivial = ordered pairs that are adjacent or overlap in exactly one position", n * (n + 1) / 2, n),
         assumptions: vec!["CharSet operations only compare end points and add/subtract 1, so the compressed line realises every case, including adjacency at 0 and at MAX_CHAR".into()],
         exhaustive: true,
-        space: format!("compressed line {:?}; and a landmark line (single positions at 0x7F/0x80, 0xFF/0x100, 0x7FF/0x800, 0xD7FF/0xD800, 0xDFFF/0xE000, 0xFFFD-0xFFFF/0x10000, 0x1FFFF/0x20000 with fat positions between them) on which every interval and every ordered pair is checked in the same way", units(n)),
+        space: format!("compressed line {:?}; and a landmark line (single positions at 0x7F/0x80, 0xFF/0x100, 0x7FF/0x800, 0xD7FF/0xD800, 0xDFFF/0xE000, 0xFFFD-0xFFFF/0x10000, 0x1FFFF/0x20000 with fat positions between them) on which every interval and every ordered pair is checked in the same way; and, for every character x of the alphabet, the intervals [x,x], [x,x+1], [x,x+255], [x,MAX], [0,x] and [start of x's landmark block, x] (size, pick, membership at and around the end points, pick of the one-interval partition)", units(n)),
     }
 }
 
@@ -1559,6 +1715,93 @@ fn c15_big(r: R, s: R) -> Option<String> {
     }
 }
 
+
+/// large operands of the unary and additive operations: the result is either the exact range (when it is
+/// representable) or a panic (documented for arithmetic overflow); a wrong or widened range is a violation
+fn c15_big_arith(r: R, k: u32, s: R) -> Option<String> {
+    publish_case(|| json!({"kind": "bigarith", "r": rj(r), "k": k, "s": rj(s)}));
+    let x = lr(r);
+    let describe = |got: &LoopRange, lo: u128, hi: Option<u128>| -> bool {
+        // exact comparison through start / finiteness / membership of the end points
+        if got.start() as u128 != lo || got.is_finite() != hi.is_some() {
+            return false;
+        }
+        match hi {
+            Some(h) => h <= u32::MAX as u128 && got.contains(h as u32) && (h == u32::MAX as u128 || !got.contains(h as u32 + 1)),
+            None => true,
+        }
+    };
+    // scale(k)
+    {
+        let (lo, hi) = if k == 0 { (0u128, Some(0u128)) } else { (r.0 as u128 * k as u128, r.1.map(|b| b as u128 * k as u128)) };
+        let fits = lo <= u32::MAX as u128 && hi.map(|h| h <= u32::MAX as u128).unwrap_or(true);
+        match guarded(|| x.scale(k)) {
+            Ok(g) => {
+                if !fits {
+                    return Some(format!("{}.scale({}) = {} although the {}-fold sum [{}, {:?}] is not representable (the documented outcome is a panic)", show_r(r), k, g, k, lo, hi));
+                }
+                if !describe(&g, lo, hi) {
+                    return Some(format!("{}.scale({}) = {}, expected [{}, {:?}]", show_r(r), k, g, lo, hi));
+                }
+            }
+            Err(e) => {
+                if fits {
+                    return Some(format!("{}.scale({}) {} although the result [{}, {:?}] is representable", show_r(r), k, e, lo, hi));
+                }
+            }
+        }
+    }
+    // add(s) and add_point(k)
+    {
+        let y = lr(s);
+        let (lo, hi) = (r.0 as u128 + s.0 as u128, match (r.1, s.1) { (Some(b), Some(d)) => Some(b as u128 + d as u128), _ => None });
+        let fits = lo <= u32::MAX as u128 && hi.map(|h| h <= u32::MAX as u128).unwrap_or(true);
+        match guarded(|| x.add(&y)) {
+            Ok(g) => {
+                if fits && !describe(&g, lo, hi) {
+                    return Some(format!("{}.add({}) = {}, expected [{}, {:?}]", show_r(r), show_r(s), g, lo, hi));
+                }
+                if !fits {
+                    return Some(format!("{}.add({}) = {} although the set of sums [{}, {:?}] is not representable", show_r(r), show_r(s), g, lo, hi));
+                }
+            }
+            Err(e) => {
+                if fits {
+                    return Some(format!("{}.add({}) {} although the result is representable", show_r(r), show_r(s), e));
+                }
+            }
+        }
+        let (lo, hi) = (r.0 as u128 + k as u128, r.1.map(|b| b as u128 + k as u128));
+        let fits = lo <= u32::MAX as u128 && hi.map(|h| h <= u32::MAX as u128).unwrap_or(true);
+        match guarded(|| x.add_point(k)) {
+            Ok(g) => {
+                if fits && !describe(&g, lo, hi) {
+                    return Some(format!("{}.add_point({}) = {}, expected [{}, {:?}]", show_r(r), k, g, lo, hi));
+                }
+                if !fits {
+                    return Some(format!("{}.add_point({}) = {} although the result is not representable", show_r(r), k, g));
+                }
+            }
+            Err(e) => {
+                if fits {
+                    return Some(format!("{}.add_point({}) {} although the result is representable", show_r(r), k, e));
+                }
+            }
+        }
+    }
+    // shift never overflows
+    match guarded(|| x.shift()) {
+        Ok(g) => {
+            let (lo, hi) = (r.0.saturating_sub(1) as u128, r.1.map(|b| b.saturating_sub(1) as u128));
+            if !describe(&g, lo, hi) {
+                return Some(format!("{}.shift() = {}, expected [{}, {:?}]", show_r(r), g, lo, hi));
+            }
+        }
+        Err(e) => return Some(format!("{}.shift() {}", show_r(r), e)),
+    }
+    None
+}
+
 fn c15_big_ranges() -> (Vec<R>, Vec<R>) {
     let p31: u32 = 1 << 31;
     let big: Vec<u32> = vec![100, 1431, 42949, 65534, 65535, 65536, 65537, 100_000, 1_000_000, 3_000_000, p31 - 2, p31 - 1, p31, p31 + 1, 3_000_000_000, u32::MAX / 2, u32::MAX - 2, u32::MAX - 1, u32::MAX];
@@ -1608,6 +1851,18 @@ fn c15_big_ranges() -> (Vec<R>, Vec<R>) {
         ss.push((c, Some(c + 1)));
         ss.push((c, Some(c)));
         ss.push((c, None));
+    }
+    // products that straddle 2^32: c*a < 2^32 <= c*b with a narrow r = [b-w, b] and s = [c, inf) (the union has a hole
+    // right after c*b unless c*w >= a-1; arithmetic that saturates instead of failing answers "no gap")
+    for c in [3u32, 1000, 4294, 14316, 61356, 65536, 70000] {
+        let b = ((1u64 << 32) + c as u64 - 1) / c as u64;
+        for w in [1u64, 2, 13, 230, 70000] {
+            if b > w && (b - w) * (c as u64) < (1u64 << 32) && b <= u32::MAX as u64 {
+                rs.push(((b - w) as u32, Some(b as u32)));
+            }
+        }
+        ss.push((c, None));
+        ss.push((c, Some(c + 1)));
     }
     ss.sort();
     ss.dedup();
@@ -1684,6 +1939,26 @@ fn c15_run(ctx: &Ctx, batch: usize, nb: usize, rep: &mut Report) {
             }
         }
     }
+    // scale / add / add_point / shift on the large ranges: the exact result or the documented overflow panic
+    let ks: [u32; 10] = [0, 1, 2, 3, 7, 65_535, 65_536, 70_000, 1_431_655_766, u32::MAX];
+    for (ri, &r) in brs.iter().enumerate() {
+        if ri % nb != batch {
+            continue;
+        }
+        for (ki, &kk) in ks.iter().enumerate() {
+            let s2 = brs[(ri * 7 + ki * 13 + 1) % brs.len()];
+            rep.inc("evaluations");
+            rep.inc("big_arith");
+            if let Some(m) = c15_big_arith(r, kk, s2) {
+                rep.violation("C15", "c15", json!({"kind": "bigarith", "r": rj(r), "k": kk, "s": rj(s2)}), m);
+            }
+            let s3 = bss[(ri + ki) % bss.len()];
+            rep.inc("evaluations");
+            if let Some(m) = c15_big_arith(s3, kk, r) {
+                rep.violation("C15", "c15", json!({"kind": "bigarith", "r": rj(s3), "k": kk, "s": rj(r)}), m);
+            }
+        }
+    }
     if batch == 0 {
         rep.sample(|| json!({"r": "[4,6]", "s": "[1,2]", "union_of_y_fold_sums": "4..6 and 8..12 (7 missing)", "mul": "[4,12]", "exact": false}));
         rep.sample(|| json!({"r": "[2,inf)", "shift": "[1,inf)"}));
@@ -1696,6 +1971,7 @@ fn c15_replay(_ctx: &Ctx, c: &Value, rep: &mut Report) {
     let m = match c["kind"].as_str().unwrap_or("") {
         "single" => c15_single(pr(&c["r"]), c["n"].as_u64().unwrap_or(8) as u32),
         "big" => c15_big(pr(&c["r"]), pr(&c["s"])),
+        "bigarith" => c15_big_arith(pr(&c["r"]), c["k"].as_u64().unwrap_or(0) as u32, pr(&c["s"])),
         _ => c15_pair(pr(&c["r"]), pr(&c["s"])),
     };
     if let Some(m) = m {
